@@ -5,6 +5,7 @@ import os
 import random
 
 import jwsgen as G
+import pyec
 import runner
 import vlib
 
@@ -96,6 +97,15 @@ def mutations(rnd, tok, meta, n):
                 continue
             t[m] = mutate_char(rnd, t[m])
         out.append((t, m))
+    # the other point with the same x coordinate: epk.y replaced by p - y (ECDH uses the x coordinate only)
+    hh = tok.get("header") or tok.get("unprotected") or {}
+    if isinstance(hh.get("epk"), dict) and hh["epk"].get("crv") in pyec.CURVES:
+        t = json.loads(json.dumps(tok))
+        h2 = t.get("header") if "epk" in (t.get("header") or {}) else t.get("unprotected")
+        cv = pyec.CURVES[h2["epk"]["crv"]]
+        y = int.from_bytes(G.unb64(h2["epk"]["y"]), "big")
+        h2["epk"]["y"] = G.b64(((cv["p"] - y) % cv["p"]).to_bytes(cv["size"], "big"))
+        out.append((t, "epk-y-negated"))
     # structural
     for m in ("tag", "iv", "ciphertext"):
         t = json.loads(json.dumps(tok))
@@ -130,6 +140,7 @@ def correspond(ctx):
     for r, o, m in fails:
         rep.violation("enc-failed:%s:%s" % (m[0], m[1]), "jose_jwe_enc failed for a valid combination %s/%s zip=%s aad=%s: %s" % (m[0], m[1], m[2], m[3], o), {"case": r})
     expected = {}
+    special = {}
     sym_cases, pk_cases = [], []
     nm = 6 if ctx["tier"] == "quick" else 40
     for tok, m in toks:
@@ -152,6 +163,8 @@ def correspond(ctx):
         for t, what in mutations(rnd, tok, m, nmut):
             c = "jwedec\t%s\t-\t%s" % (G.dumps(t), G.dumps(dkey))
             expected[c] = "ERR"
+            if what == "epk-y-negated":
+                special[c] = what
             bucket.append(c)
             dist["mutation: " + what.split("-")[0]] += 1
         # key sets and the any-semantics of decryption
@@ -164,12 +177,38 @@ def correspond(ctx):
                 bucket.append(c)
                 dist["key sets"] += 1
 
+    # PBES2 at the MAXIMUM iteration count (what jose writes by default), p2c in an unauthenticated header: every
+    # change of the count, upwards too, must make unwrapping fail (implementation only: 32768 iterations of the
+    # Gallina PBKDF2 would take minutes)
+    pw = G.oct_key(rnd, 20)
+    t0 = G.jwe_template(G.PBES2[0], "A128GCM", False, None, where="split", p2c=32768)
+    o0 = G.harness(bdir, ["jweenc\t%s\t-\t%s\t%s" % (G.dumps(t0), G.dumps(pw), b"p2c".hex())])[0]
+    if o0 == "ERR" or o0.startswith("CRASH"):
+        rep.violation("enc-failed:PBES2:p2c-max", "jose_jwe_enc with p2c=32768 failed: " + o0[:100], {"template": G.dumps(t0)})
+    else:
+        tk = json.loads(o0)
+        c = "jwedec\t%s\t-\t%s" % (G.dumps(tk), G.dumps(pw))
+        expected[c] = "OK " + b"p2c".hex()
+        pk_cases.append(c)
+        for newc in (32769, 32778, 42768, 65536, 327680, 1000000000, 32767, 16384):
+            t = json.loads(json.dumps(tk))
+            hh = t.get("unprotected") if "p2c" in (t.get("unprotected") or {}) else t.get("header")
+            if hh is None or "p2c" not in hh:
+                break
+            hh["p2c"] = newc
+            c = "jwedec\t%s\t-\t%s" % (G.dumps(t), G.dumps(pw))
+            expected[c] = "ERR"
+            pk_cases.append(c)
+            dist["mutation: p2c at the maximum"] += 1
+
     def oracle(case, out):
         if out.startswith("CRASH"):
             return ("crash:" + out[:80], "crash or sanitizer report: " + out)
         want = expected.get(case)
         if want is not None and out != want:
             f = case.split("\t")
+            if want == "ERR" and case in special:
+                return ("dec-accepts-modified:" + special[case], "decryption succeeds after epk.y was replaced by p - y (the other point with the same x): ECDH-ES derives the key from the x coordinate of the shared point only, so this change of the epk member is not detected")
             if want == "ERR":
                 return ("dec-accepts-modified", "decryption reports success although an integrity-relevant member was changed / the key belongs to no recipient")
             return ("dec-rejects-valid", "decryption of an unmodified token with its recipient key fails")
